@@ -184,7 +184,10 @@ theorem opCopy_refines {neg : Bool} {root : Node} {op : Op} {sop : Spec.Op} {pat
       (fstOutL (opCopy neg 0 root acci op)) := by
   have hp' : Spec.parsePointer sop.path = some ptoks := by rw [hsp]; exact hp
   cases hpf : Spec.parsePointer f with
-  | none => rw [Impl.spec_copy_none hk hp' (by rw [hsf]; exact hpf)]; trivial
+  | none =>
+    -- an unparsable `from`: the specification fails with a cause that is not listed for `copy`
+    rw [Impl.spec_copy_none hk hp' (by rw [hsf]; exact hpf)]
+    simp [OpRefL, listed]
   | some ftoks =>
     cases ftoks with
     | nil => exact absurd ((Impl.parsePointer_nil_iff hpf).1 rfl) hfne
